@@ -183,6 +183,7 @@ import DtsVerif.Props.C04
 import DtsVerif.Model.TimeCoords
 import DtsVerif.Model.Guards
 import DtsVerif.Model.Shift
+import DtsVerif.Props.ObsSpec
 import Mathlib.Tactic.Ring
 import Mathlib.Tactic.FieldSimp
 /-! GENERATED by harness/translate.py from the current dts_accessor.py — do not edit. -/
@@ -985,8 +986,158 @@ def translate_shift(src_root):
     return "\n".join(L) + "\n"
 
 
+# ================================================================================================ observations and weights
+def _strip(n):
+    """drop `.values`, `.ravel()`, `.T` wrappers; returns (inner node, list of wrappers outermost first)"""
+    wr = []
+    while True:
+        if isinstance(n, ast.Call) and isinstance(n.func, ast.Attribute) and n.func.attr == "ravel" and not n.args:
+            wr.append("ravel")
+            n = n.func.value
+        elif isinstance(n, ast.Attribute) and n.attr in ("values", "T"):
+            wr.append(n.attr)
+            n = n.value
+        else:
+            return n, wr
+
+
+def translate_obs(src_root, which=("single", "double")):
+    """the observation vector and the weights of both solvers (reference rows and matching-section rows) proved to be the
+    log-ratios and the inverses of each observation's OWN first-order variance (`Props/ObsSpec.lean`); the data sets and variance
+    arrays entering each expression are checked to be taken at the same index set"""
+    tree = ast.parse((Path(src_root) / "dtscalibration" / "calibrate_utils.py").read_text())
+    fns = {n.name: n for n in ast.walk(tree) if isinstance(n, ast.FunctionDef)}
+    L = ["\nnamespace DtsVerif.GenObs\nopen DtsVerif.ObsSpec\nvariable {K : Type} [Field K]\n"]
+    info = {}
+
+    def build(fname, idx_of, tag):
+        if fname not in fns:
+            raise Untranslatable(f"{fname} not found")
+        B = Block(fns[fname])
+        # data sets: ds_X = ds.isel(x=<index set>)
+        sets = {}
+        for name, idx in idx_of.items():
+            src = ast.unparse(B.get(f"ds_{name}")).replace("'", '"')
+            if src != f"ds.isel(x={idx})":
+                raise Untranslatable(f"{fname}: ds_{name} is `{src}`, expected ds.isel(x={idx})")
+            sets[name] = idx
+        for k, v in (("hix", "matching_indices[:, 0]"), ("tix", "matching_indices[:, 1]")):
+            if k in idx_of.values() and ast.unparse(B.get(k)) != v:
+                raise Untranslatable(f"{fname}: {k} is no longer {v}")
+        atoms = {}
+        for name, idx in idx_of.items():
+            for ch in ("st", "ast", "rst", "rast"):
+                key = f"{ch}_var_{name}"
+                if key in B.assign:
+                    src = ast.unparse(B.get(key)).replace("'", '"')
+                    if src != f"parse_st_var(ds.{ch}, {ch}_var).isel(x={idx}).values":
+                        raise Untranslatable(f"{fname}: {key} is `{src}`: not the variance of {ch} at the index set of ds_{name}")
+                    atoms[key] = f"v{ch}_{name}"
+                for form in (f"ds_{name}.{ch}", f"ds_{name}.{ch}.values"):
+                    atoms[form] = f"{ch}_{name}"
+            for a, b_, sym in (("st", "ast", "IF"), ("rst", "rast", "IB")):
+                atoms[f"np.log(ds_{name}.{a} / ds_{name}.{b_})"] = f"{sym}_{name}"
+                atoms[f"np.log(ds_{name}.{a}.values / ds_{name}.{b_}.values)"] = f"{sym}_{name}"
+        return B, atoms
+
+    def tr(n, atoms, fname):
+        n, _ = _strip(n)
+        k = _key(n)
+        if k is not None and k in atoms:
+            return atoms[k]
+        if isinstance(n, ast.Constant) and isinstance(n.value, (int, float)) and float(n.value) == int(n.value) and 0 < n.value < 100:
+            return f"({int(n.value)} : K)"
+        if isinstance(n, ast.BinOp):
+            if isinstance(n.op, ast.Pow):
+                e = n.right
+                if isinstance(e, ast.UnaryOp) and isinstance(e.op, ast.USub) and isinstance(e.operand, ast.Constant) and e.operand.value == 2:
+                    return f"(({tr(n.left, atoms, fname)} ^ 2)⁻¹)"
+                raise Untranslatable(f"{fname}: power other than -2")
+            op = {ast.Add: "+", ast.Sub: "-", ast.Mult: "*", ast.Div: "/"}.get(type(n.op))
+            if op is None:
+                raise Untranslatable(f"{fname}: operator {type(n.op).__name__}")
+            return f"({tr(n.left, atoms, fname)} {op} {tr(n.right, atoms, fname)})"
+        raise Untranslatable(f"{fname}: atom outside the table: {ast.unparse(n)[:80]}")
+
+    def ravel_of(n):
+        return ".".join(reversed(_strip(n)[1]))
+
+    def vars_of(names, chans):
+        return " ".join(f"{c}_{n} v{c}_{n}" for n in names for c in chans)
+
+    close = "by\n  simp only [{defs}, varI, wRef, wPair, wHalf, yPair, yHalf]\n  all_goals try field_simp\n  all_goals try ring"
+    if "single" in which:
+        f = "calibration_single_ended_solver"
+        B, at = build(f, {"sec": "ix_sec", "ms0": "matching_indices[:, 0]", "ms1": "matching_indices[:, 1]"}, "S")
+        info["single"] = dict(y=ravel_of(B.get("y")) if False else None)
+        ys = [v for k, v in B.all if k == "y"]
+        if not ys:
+            raise Untranslatable(f"{f}: y not found")
+        L.append(f"def yS (IF_sec : K) : K := {tr(ys[0], at, f)}")
+        L.append("theorem yS_eq (IF_sec : K) : yS IF_sec = IF_sec := rfl")
+        L.append(f"def ymS (IF_ms0 IF_ms1 : K) : K := {tr(B.get('y_m'), at, f)}")
+        L.append("theorem ymS_eq (IF_ms0 IF_ms1 : K) : ymS IF_ms0 IF_ms1 = yPair IF_ms0 IF_ms1 := rfl")
+        ws = [v for k, v in B.all if k == "w" and not isinstance(v, ast.Constant) and not (isinstance(v, ast.Call) and _key(v.func) == "np.hstack")]
+        if len(ws) != 1:
+            raise Untranslatable(f"{f}: the weights of the reference rows are assigned {len(ws)} times")
+        L.append(f"def wS (st_sec vst_sec ast_sec vast_sec : K) : K := {tr(ws[0], at, f)}")
+        L.append("theorem wS_eq (st_sec vst_sec ast_sec vast_sec : K) : wS st_sec vst_sec ast_sec vast_sec = wRef st_sec ast_sec vst_sec vast_sec := "
+                 + close.format(defs="wS"))
+        L.append(f"def wmS ({vars_of(['ms0', 'ms1'], ['st', 'ast'])} : K) : K := {tr(B.get('w_ms'), at, f)}")
+        L.append(f"theorem wmS_eq ({vars_of(['ms0', 'ms1'], ['st', 'ast'])} : K) : wmS st_ms0 vst_ms0 ast_ms0 vast_ms0 st_ms1 vst_ms1 ast_ms1 vast_ms1 = "
+                 "wPair st_ms0 ast_ms0 vst_ms0 vast_ms0 st_ms1 ast_ms1 vst_ms1 vast_ms1 := " + close.format(defs="wmS"))
+        info["single"] = dict(y=ravel_of(ys[0]), y_m=ravel_of(B.get("y_m")), w=ravel_of(ws[0].right if isinstance(ws[0], ast.BinOp) else ws[0]),
+                              w_ms=ravel_of(B.get("w_ms").right if isinstance(B.get("w_ms"), ast.BinOp) else B.get("w_ms")))
+        for piece in ("y = np.hstack((y, y_m))", "w = np.hstack((w, w_ms))"):
+            if piece not in ast.unparse(fns[f]):
+                raise Untranslatable(f"{f}: `{piece}` is gone")
+    if "double" in which:
+        f = "calibrate_double_ended_solver"
+        B, at = build(f, {"sec": "ix_sec", "hix": "hix", "tix": "tix", "mnc": "ix_match_not_cal"}, "D")
+        for nm, sym in (("y_F", "IF_sec"), ("y_B", "IB_sec")):
+            vals = [v for k, v in B.all if k == nm]
+            if not vals or any(tr(v, at, f) != sym for v in vals):
+                raise Untranslatable(f"{f}: {nm} is not the log-ratio at the reference locations")
+        L.append(f"def yEq1D (IF_hix IF_tix : K) : K := {tr(B.get('y_eq1'), at, f)}")
+        L.append("theorem yEq1D_eq (IF_hix IF_tix : K) : yEq1D IF_hix IF_tix = yPair IF_hix IF_tix := rfl")
+        L.append(f"def yEq2D (IB_hix IB_tix : K) : K := {tr(B.get('y_eq2'), at, f)}")
+        L.append("theorem yEq2D_eq (IB_hix IB_tix : K) : yEq2D IB_hix IB_tix = yPair IB_hix IB_tix := rfl")
+        L.append(f"def yEq3D (IF_mnc IB_mnc : K) : K := {tr(B.get('y_eq3'), at, f)}")
+        L.append("theorem yEq3D_eq (IF_mnc IB_mnc : K) : yEq3D IF_mnc IB_mnc = yHalf IF_mnc IB_mnc := rfl")
+        for nm, chans in (("w_F", ["st", "ast"]), ("w_B", ["rst", "rast"])):
+            vals = [v for k, v in B.all if k == nm]
+            if not vals:
+                raise Untranslatable(f"{f}: {nm} not found")
+            texts = {tr(v, at, f) for v in vals}
+            if len(texts) != 1:
+                raise Untranslatable(f"{f}: {nm} is formed differently in the two branches")
+            a, b_ = chans
+            L.append(f"def {nm}D ({a}_sec v{a}_sec {b_}_sec v{b_}_sec : K) : K := {texts.pop()}")
+            L.append(f"theorem {nm}D_eq ({a}_sec v{a}_sec {b_}_sec v{b_}_sec : K) : {nm}D {a}_sec v{a}_sec {b_}_sec v{b_}_sec = "
+                     f"wRef {a}_sec {b_}_sec v{a}_sec v{b_}_sec := " + close.format(defs=f"{nm}D"))
+        for nm, chans in (("w_eq1", ["st", "ast"]), ("w_eq2", ["rst", "rast"])):
+            a, b_ = chans
+            args = f"{a}_hix v{a}_hix {b_}_hix v{b_}_hix {a}_tix v{a}_tix {b_}_tix v{b_}_tix"
+            L.append(f"def {nm}D ({args} : K) : K := {tr(B.get(nm), at, f)}")
+            L.append(f"theorem {nm}D_eq ({args} : K) : {nm}D {args} = wPair {a}_hix {b_}_hix v{a}_hix v{b_}_hix {a}_tix {b_}_tix v{a}_tix v{b_}_tix := "
+                     + close.format(defs=f"{nm}D"))
+        args = "st_mnc vst_mnc ast_mnc vast_mnc rst_mnc vrst_mnc rast_mnc vrast_mnc"
+        L.append(f"def w_eq3D ({args} : K) : K := {tr(B.get('w_eq3'), at, f)}")
+        L.append(f"theorem w_eq3D_eq ({args} : K) : w_eq3D {args} = wHalf st_mnc ast_mnc vst_mnc vast_mnc rst_mnc rast_mnc vrst_mnc vrast_mnc := "
+                 + close.format(defs="w_eq3D"))
+        src = ast.unparse(fns[f])
+        for piece in ("y = np.concatenate((y_F, y_B, y_eq1, y_eq2, y_eq3))", "w = np.concatenate((w_F, w_B, w_eq1, w_eq2, w_eq3))",
+                      "y = np.concatenate((y_F, y_B))", "w = np.concatenate((w_F, w_B))"):
+            if piece not in src:
+                raise Untranslatable(f"{f}: `{piece}` is gone")
+    L.append("\nend DtsVerif.GenObs")
+    return "\n".join(L) + "\n", info
+
+
 # which generated sections tie which property's model to the source (a broken section is reported only for these)
 SECTIONS = {
+    "C01": dict(formulas=(), extra=("obs-single",)),
+    "C02": dict(formulas=(), extra=("obs-double",)),
     "C04": dict(formulas=("temps",), extra=("layout",)),
     "C05": dict(formulas=("temps", "derivs", "terms"), extra=()),
     "C06": dict(formulas=("derivs", "terms", "weighted"), extra=()),
@@ -1012,6 +1163,10 @@ def translate_for(prop, src_root):
             text += translate_guards(src_root)
         elif e == "shift":
             text += translate_shift(src_root)
+        elif e in ("obs-single", "obs-double"):
+            t_, info = translate_obs(src_root, which=(e.split("-")[1],))
+            text += t_
+            names = dict(names, ravel=info)
     return text, names
 
 
